@@ -618,6 +618,36 @@ def r18_10(prog, rep, rid="R18.10"):
         rep.broken_("rule=%s expected the two detach masks on the date part, found %d" % (rid, n))
 
 
+def r18_11(prog, rep, rid="R18.11"):
+    """The number printer takes the count of decimal digits from ilog10_ceil(), a bit trick on top of another (a de Bruijn table for the
+    binary logarithm, a multiplication for the ratio of the logarithms, one comparison against a power of ten): one digit too few and
+    the leading digit of a duration component is cut off, one too many and a stray byte is written in front.  Both functions are walked
+    for every power of ten and of two, their neighbours and the ends of the range: the answer is the length of the decimal spelling.
+    (R18.9 models the printer of numbers by exactly that length.)"""
+    from .c08 import _walk_fn
+    f = prog.fn("ilog10_ceil", "dt-strpf.c")
+    vals = {0, 1, 2, 15, 16, 17, (1 << 32) - 1, 1 << 31, (1 << 31) - 1}
+    for k in range(0, 10):
+        vals |= {10 ** k - 1, 10 ** k, 10 ** k + 1}
+    for k in range(4, 32):
+        vals |= {(1 << k) - 1, 1 << k, (1 << k) + 1}
+    vals = sorted(v for v in vals if 0 <= v < (1 << 32))
+    bad = []
+    for v in vals:
+        got = _walk_fn(prog, f, [v])
+        if got is None:
+            raise AnalysisBroken("ilog10_ceil(%d) could not be followed to one result" % v)
+        if got != len(str(v)):
+            bad.append((v, got, len(str(v))))
+    key = "ilog10_ceil/is-the-number-of-decimal-digits"
+    if bad:
+        rep.fail(rid, key, f.loc(), "%d of %d numbers get the wrong digit count, e.g. %s: the printer of durations and dates writes such a number with its "
+                 "leading digit cut off (or a byte too far to the left)" % (len(bad), len(vals), "; ".join("%d -> %s instead of %d" % b_ for b_ in bad[:4])),
+                 {"examples": [list(b_) for b_ in bad[:30]]})
+    else:
+        rep.ok(rid, key, f.loc(), "%d numbers (every power of ten and of two with its neighbours, 0 and 2^32 - 1) get the length of their decimal spelling" % len(vals))
+
+
 def run(prog, rep, tier, snap):
     rep.rule("R18.1", "64-bit accumulation in the duration parser", 2)
     rep.call(r18_1, prog, rep)
@@ -629,6 +659,8 @@ def run(prog, rep, tier, snap):
     rep.call(r18_10, prog, rep)
     rep.rule("R18.5", "the duration printer does not drop what is left below its smallest unit", 1)
     rep.call(r18_5, prog, rep)
+    rep.rule("R18.11", "the printer's digit count is the length of the decimal spelling (value-fixed walk of the two logarithm tricks)", 1)
+    rep.call(r18_11, prog, rep)
     rep.rule("R18.4", "the instant parser's default window covers the printers' longest output", 2)
     rep.call(r18_4, prog, rep)
     rep.rule("R08.2", "calendar tables used by the text forms agree with the calendar (shared with C08)", 15)
